@@ -305,10 +305,16 @@ type shapeEdit struct {
 // keyed by the responsible decoder, the schema node and the edit.
 func (e shapeEdit) FindingKey() string {
 	switch {
-	case strings.HasPrefix(e.Edit, "null:"):
+	case strings.HasPrefix(e.Edit, "null:") && e.Custom == "":
 		return "shape:null-for-required-field"
-	case e.Edit == "swap:bytes->array":
+	case e.Edit == "swap:bytes->array" && e.Custom == "":
 		return "shape:array-for-byte-string"
+	case strings.HasPrefix(e.Edit, "null:"):
+		// a hand-written decoder is responsible for this node: the generic
+		// coercion does not excuse it, so the class names the decoder
+		return "shape:null-for-required-field:" + e.Custom
+	case e.Edit == "swap:bytes->array":
+		return "shape:array-for-byte-string:" + e.Custom
 	case strings.HasPrefix(e.Edit, "point:") && e.pointLen >= 0 && e.pointLen != 0 && e.pointLen != 2:
 		return "shape:Point.UnmarshalCBOR:list-length-not-0-or-2"
 	}
